@@ -10,7 +10,7 @@ SeqsUpTo(S, n) == UNION {[1..k -> S] : k \in 0..n}
 Versions == {768, 771, 32540}
 Sids == {<<>>, [i \in 1..32 |-> i]}
 SuiteCodes == {47, 4865, 2570, 4660}                  \* two known, one GREASE (0x0a0a), one unassigned (0x1234)
-GenExts == { [type |-> 10, body |-> <<0, 6, 17, 236, 0, 23, 10, 10>>],  \* supported_groups: unassigned 0x11ec BEFORE secp256r1, GREASE 0x0a0a
+GenExts == { [type |-> 10, body |-> <<0, 10, 17, 236, 10, 10, 26, 26, 0, 23, 42, 42>>],  \* supported_groups: unassigned 0x11ec, two GREASE values in a row, secp256r1, GREASE
           [type |-> 11, body |-> <<2, 0, 1>>],                     \* ec_point_formats: uncompressed, ansiX962_compressed_prime
           [type |-> 65281, body |-> <<0>>],                        \* renegotiation_info, empty
           [type |-> 10794, body |-> <<7>>] }                       \* GREASE extension 0x2a2a with one byte
